@@ -717,6 +717,7 @@ def oracle(case, impl):
         if got != list(sc.ext[1]):
             return "external subcommand arguments not preserved verbatim: expected %r got %r" % (sc.ext[1], got)
     # ---- each level's arguments are parsed against that level's definition only
+    chain_globals = {a["id"] for L in sc.levels for a in L["node"]["args"] if "global" in a.get("flags", set())}
     for k, L in enumerate(sc.levels):
         em = ent_map(lv[k][0])
         defined = {a["id"]: a for a in list(L["node"]["args"]) + L["inherited"]}
@@ -732,8 +733,10 @@ def oracle(case, impl):
                     return "level %d: %r was not given at this level but is reported from the command line: %r" % (
                         k, aid, e["occ"])
         for aid, e in em.items():
-            if aid not in defined and e["src"] not in ("?",) and aid != b"":
-                return "level %d reports %r, which this level does not define" % (k, aid)
+            # ids a level does not define may only be globals of the chain (propagate_globals inserts the
+            # whole vals_map at every level, also above the defining command: DESIGN 7-O)
+            if aid not in defined and aid != b"" and aid not in chain_globals:
+                return "level %d reports %r, which neither this level nor a global of the chain defines" % (k, aid)
     # ---- an explicit occurrence of a global always beats a default
     for d, L in enumerate(sc.levels):
         for a in L["node"]["args"]:
@@ -836,6 +839,19 @@ def gen_dedicated(rng, n, P, explicit_p, p_mutate, per_cmd=5):
                     toks = mutate(rng, toks)
                 stats["mutated"] += 1
             cases.append(gen_cmd.case_sx(c, [b"prog"] + toks, mode="parse"))
+            sc = scan(c, toks) if strict(c) else None
+            if sc is None:
+                stats["scan:no-verdict"] += 1
+            else:
+                stats["scan:valid-line,chain-length:%d%s" % (len(sc.chain), "+external" if sc.ext else "")] += 1
+                stats["scan:known-family-prefix"] += sc.prefix_cluster
+                stats["scan:known-family-stale-at"] += sc.stale_cluster
+                for d, L in enumerate(sc.levels):
+                    for a in L["node"]["args"]:
+                        if "global" in a["flags"]:
+                            lv_given = [i for i in range(d, len(sc.levels)) if a["id"] in sc.levels[i]["exp"]]
+                            stats["global(defined at %d, %d levels below): given at %d level(s)" % (
+                                d, len(sc.levels) - d - 1, len(lv_given))] += 1
     return cases[:n], dict(sorted(stats.items()))
 
 
